@@ -41,3 +41,23 @@ func init() {
 		Assumes:    []string{"absence of shared writes is the sufficient condition for race freedom used here", "VTA call graph (CHA in thorough)", "channel operations synchronise"},
 	})
 }
+
+func init() {
+	register(&propSpec{
+		ID:    "C12",
+		Rules: []func(*Ctx){ruleR12, ruleR06a},
+		Explain: "R12: error discipline on SSA: every call reachable from Renderer.Execute that writes to an io.Writer-typed operand (Write, io.WriteString, fmt.Fprint*) must have its error tested with the failing branch raising (errorf/panic) or returning it to callers that do; in-memory buffers (*bytes.Buffer by construction) are exempt. R06a: the entry converts the raise into its returned error. Since every failed write raises and emission is sequential, the accepted bytes are a prefix and nil is returned only if every write succeeded.",
+		NotDecided: "writers that violate the io.Writer contract (short write without error).",
+		Assumes:    []string{"io.Writer contract", "VTA call graph for reachability"},
+	})
+}
+
+func init() {
+	register(&propSpec{
+		ID:    "C18",
+		Rules: []func(*Ctx){ruleR18a, ruleR18b, func(c *Ctx) { ruleRunCloses(c, "R18b") }, ruleR05a},
+		Explain: "R18a: acquire/release on go/cfg: every function that starts a scanner (calls a function containing the go statement) is covered on every returning path by a deferred drain, or by a draining recover handler plus a call that reads the stream through itemEOF; R18b: the scanner returns its nil state right after an error item or EOF and run closes the channel on every exit; R05a: scanner loops end once input is exhausted, so a drained scanner exits.",
+		NotDecided: "paths that leave by re-panicking a runtime error (they do not return; outside the property).",
+		Assumes:    []string{"go/cfg control flow", "a receive loop over the item channel until close (drain) lets every pending send complete"},
+	})
+}
